@@ -135,11 +135,13 @@ theorem runEntry_struct (cfg : Cfg) : ∀ (f : Nat) (fn : Fn) (e : Entry) (x : D
       | fallthrough =>
         cases nx with
         | noNext => exact ⟨rfl, rfl⟩
+        | ambNext ids => exact ⟨rfl, rfl⟩
         | meth id => exact ih fn (.meth id) x d
         | dep hs' nx' => exact ih fn (.dep hs' nx') x d
       | ambiguous => exact ⟨rfl, rfl⟩
       | raised => exact ⟨rfl, rfl⟩
     | noNext => rw [runEntry_noNext]; exact ⟨rfl, rfl⟩
+    | ambNext ids => rw [runEntry_ambNext]; exact ⟨rfl, rfl⟩
     | meth id =>
       rw [runEntry_meth]
       cases findDef fn id with
